@@ -326,6 +326,12 @@ def run(ctx: Ctx) -> None:
     store_protocol(ctx, "12.2", {"pending"})
     check_listeners(ctx)
     check_backup_setup(ctx)
+    # 12.6: a restarted DOE goes through every generated sample again: what is already stored is served by the
+    # memoisation of each function (12.4), value by value, never by skipping the sample as a whole (an entry the crash
+    # left with the objective only would never get its constraints and observables) -- rule 3.7 of C03
+    from gv.props import c03
+
+    c03.check_doe_run(_Prefixed(ctx, "12.6-restarted-doe/"))
     # 12.4: the memoisation rules of C01 (same rule instances, cited)
     from gv.props import c01
 
